@@ -124,6 +124,9 @@ def call_graph(P, T):
         for cs in b.calls():
             for t in T.targets(b, cs):
                 rb = root_of(P, t)
+                if t.def_kind == "Closure" and rb.key == ra.key:
+                    continue      # a function invoking one of its own closures does not re-enter itself: the closure's calls are
+                    #               already attributed to the function
                 edges.setdefault(ra.key, []).append((b, cs, rb))
     return edges
 
